@@ -1,4 +1,4 @@
-package e2e07
+package c07
 
 // End-to-end part of C07: the same request bytes written into a running MOSN as one piece and in a
 // generated segmentation (1-byte writes, cuts inside frames, several frames per write, 0-2 ms gaps)
@@ -180,7 +180,7 @@ func genStream() *rapid.Generator[hold[stream]] {
 
 // delivery plays the stream into a fresh listener + upstream and returns the upstream's request log in a
 // canonical form (one string per request), plus what the client received.
-func deliver(rt *rapid.T, s *stream, chunked bool) (log []string, problem string) {
+func e2eDeliver(rt *rapid.T, s *stream, chunked bool) (log []string, problem string) {
 	up := s.Proto
 	if up == "Auto" {
 		up = "Http1"
@@ -348,13 +348,13 @@ func TestPropE2ESegmentation(t *testing.T) {
 		desc := fmt.Sprintf("%s: %d frames ending at %v, cut mode %s, %d cuts (%d inside frames) %v gaps %v", s.Proto, len(s.Frames), s.Bounds, s.Mode, len(s.Cuts), inside, headInts(s.Cuts), headInts(s.Gaps))
 		ev.Case(partSeg, nontrivial, canon, func() interface{} { return desc }, classes...)
 
-		whole, p1 := deliver(rt, s, false)
+		whole, p1 := e2eDeliver(rt, s, false)
 		if p1 != "" || len(whole) != len(s.Frames) {
 			// the reference delivery itself has to be clean, otherwise the case says nothing about segmentation
 			ev.Class(partSeg, "reference-delivery-incomplete")
 			rt.Skip(fmt.Sprintf("whole delivery: %s, upstream saw %d of %d", p1, len(whole), len(s.Frames)))
 		}
-		cut, p2 := deliver(rt, s, true)
+		cut, p2 := e2eDeliver(rt, s, true)
 		ordered := s.Proto == "Http1" || s.Proto == "Auto" // multiplexed protocols hand streams to a worker pool: order across streams is not fixed
 		a, b := whole, cut
 		if !ordered {
